@@ -764,3 +764,134 @@ Lemma canonical_values_ok :
    bool_decide ("!" ∈ py_vocab) && arity_ok "!" None None) = true ∧
   conn_sem "=" = None.
 Proof. by vm_compute. Qed.
+
+(** ** the text of [to_expr], split into lexemes by [split_formula] (blanks
+    separate, parentheses and commas stand alone — the hand-written splitter
+    of [ParserTablesOk]; PLY's regular expressions are not modelled) *)
+Lemma sapp_cons x (a b : string) : String x a +:+ b = String x (a +:+ b).
+Proof. reflexivity. Qed.
+Lemma sapp_assoc (a b c : string) : (a +:+ b) +:+ c = a +:+ (b +:+ c).
+Proof. induction a as [|x a IH]; [done|]. rewrite !sapp_cons. by f_equal. Qed.
+Lemma sapp_nil_r (a : string) : a +:+ "" = a.
+Proof. induction a as [|x a IH]; [done|]. rewrite sapp_cons. by f_equal. Qed.
+
+Lemma string_rev_app_app s t u :
+  string_rev_app (string_rev_app s t) u = string_rev_app t (s +:+ u).
+Proof.
+  revert t u. induction s as [|a s IH]; intros t u; [done|].
+  cbn [string_rev_app]. rewrite IH. done.
+Qed.
+Lemma string_rev_involutive s : string_rev (string_rev s) = s.
+Proof. unfold string_rev. rewrite string_rev_app_app. apply sapp_nil_r. Qed.
+
+Definition plain (c : ascii) : bool :=
+  negb (bool_decide (String c "" = " ")) && negb (bool_decide (String c "" ∈ ["("; ")"; ","])).
+Definition delim_start (s : string) : Prop :=
+  match s with "" => True | String c _ => plain c = false end.
+
+Lemma word_go w : ∀ rest cur acc, all_chars plain w = true →
+  split_go (w +:+ rest) cur acc = split_go rest (string_rev_app w cur) acc.
+Proof.
+  induction w as [|c w IH]; intros rest cur acc Hw; [done|].
+  cbn [all_chars] in Hw. apply andb_true_iff in Hw as [Hc Hw].
+  unfold plain in Hc. apply andb_true_iff in Hc as [H1%negb_true_iff H2%negb_true_iff].
+  rewrite sapp_cons.
+  cbn [split_go]. rewrite H1, H2. by rewrite IH.
+Qed.
+
+Lemma string_rev_nonempty w : w ≠ "" → string_rev w ≠ "".
+Proof. intros Hw E. apply Hw. rewrite <- (string_rev_involutive w), E. done. Qed.
+
+Lemma word_then w rest acc :
+  all_chars plain w = true → w ≠ "" → delim_start rest →
+  split_go (w +:+ rest) "" acc = split_go rest "" (w :: acc).
+Proof.
+  intros Hw Hne Hd. rewrite word_go by done. fold (string_rev w).
+  pose proof (string_rev_nonempty w Hne) as Hr.
+  destruct rest as [|d rest]; cbn [split_go].
+  - rewrite bool_decide_false by done. by rewrite string_rev_involutive.
+  - rewrite (bool_decide_false (string_rev w = "")) by done.
+    rewrite string_rev_involutive. cbn [delim_start] in Hd. unfold plain in Hd.
+    destruct (bool_decide (String d "" = " ")); [done|].
+    destruct (bool_decide (String d "" ∈ ["("; ")"; ","])); [done|]. done.
+Qed.
+
+Lemma sg_space X acc : split_go (String " "%char X) "" acc = split_go X "" acc.
+Proof. reflexivity. Qed.
+Lemma sg_lparen X acc : split_go (String "("%char X) "" acc = split_go X "" ("(" :: acc).
+Proof. reflexivity. Qed.
+Lemma sg_rparen X acc : split_go (String ")"%char X) "" acc = split_go X "" (")" :: acc).
+Proof. reflexivity. Qed.
+Lemma sg_comma X acc : split_go (String ","%char X) "" acc = split_go X "" ("," :: acc).
+Proof. reflexivity. Qed.
+
+Lemma plain_digit c : is_digit c = true → plain c = true.
+Proof. destruct c as [[] [] [] [] [] [] [] []]; vm_compute; done. Qed.
+
+Lemma var_name_word v : all_chars plain (var_name v) = true ∧ var_name v ≠ "".
+Proof.
+  unfold var_name. change (pretty v) with (pretty (N.of_nat v)).
+  change ("v" +:+ pretty (N.of_nat v)) with (String "v"%char (pretty (N.of_nat v))).
+  split; [|done]. cbn [all_chars]. change (plain "v"%char) with true.
+  apply (all_chars_impl is_digit plain); [apply plain_digit|apply all_digits_pretty].
+Qed.
+
+Lemma split_te a : te_shape a → ∀ rest acc, delim_start rest →
+  split_go (expr_text a +:+ rest) "" acc = split_go rest "" (rev (te_spellings a) ++ acc).
+Proof.
+  induction a as [b|n|z|op a IH|op a1 IH1 a2 IH2|a IHa b IHb c IHc|op ns a IH|ss a IH];
+    cbn [te_shape]; try done; intros Hs rest acc Hd.
+  - destruct b; cbn [expr_text te_spellings]; by rewrite word_then.
+  - destruct Hs as [v ->]. cbn [expr_text te_spellings].
+    destruct (var_name_word v). by rewrite word_then.
+  - destruct Hs as [-> Hs]. cbn [expr_text te_spellings].
+    rewrite !sapp_assoc.
+    change ("(~ " +:+ expr_text a +:+ ")" +:+ rest)
+      with (String "("%char ("~" +:+ String " "%char (expr_text a +:+ String ")"%char rest))).
+    rewrite sg_lparen. rewrite word_then by done. rewrite sg_space.
+    rewrite IH by done. rewrite sg_rparen.
+    f_equal. repeat (progress (simpl; rewrite ?rev_app_distr, <- ?app_assoc)); done.
+  - destruct Hs as ([v ->]&Hq&Hp). cbn [expr_text te_spellings].
+    rewrite !sapp_assoc.
+    change ("ite(" +:+ var_name v +:+ ", " +:+ expr_text b +:+ ", " +:+ expr_text c +:+ ")" +:+ rest)
+      with ("ite" +:+ String "("%char (var_name v +:+ String ","%char (String " "%char
+             (expr_text b +:+ String ","%char (String " "%char
+               (expr_text c +:+ String ")"%char rest)))))).
+    rewrite word_then by done. rewrite sg_lparen.
+    destruct (var_name_word v). rewrite word_then by done.
+    rewrite sg_comma, sg_space. rewrite IHb by done. rewrite sg_comma, sg_space.
+    rewrite IHc by done. rewrite sg_rparen.
+    f_equal. repeat (progress (simpl; rewrite ?rev_app_distr, <- ?app_assoc)); done.
+Qed.
+
+Lemma split_formula_te a : te_shape a → split_formula (expr_text a) = te_spellings a.
+Proof.
+  intros Hs. unfold split_formula. rewrite <- (sapp_nil_r (expr_text a)).
+  rewrite split_te by done. cbn [split_go]. rewrite bool_decide_true by done.
+  rewrite app_nil_r. apply rev_involutive.
+Qed.
+
+(** [add_expr(to_expr(u))] on the text itself *)
+Theorem to_expr_roundtrip_text s u :
+  Inv s → valid s u → last_len s = None →
+  ∃ txt, to_expr u s = (Ok txt, s) ∧
+    ∀ r s', add_expr lex_alias reserved_words code_prec (split_formula txt) s = (r, s') →
+      r = Ok u ∧ Inv s' ∧ extends s s' ∧ last_len s' = None.
+Proof.
+  intros HI Hu Hoff.
+  destruct (to_expr_ast_spec (S (S (nvars s))) s u HI Hu) as (a&Ea&Hok&Hsem); [lia|].
+  pose proof (to_expr_rec_text (S (S (nvars s))) u s) as Ht. rewrite Ea in Ht.
+  destruct Ht as [Hshape Ht].
+  exists (expr_text a). split.
+  { unfold to_expr. cbn [bind get]. unfold ensure. rewrite (proj2 (mem_valid s u) Hu).
+    by rewrite (bind_ok _ _ s tt s) by done. }
+  rewrite (split_formula_te a Hshape).
+  pose proof (lex_te a Hshape) as Hlex.
+  pose proof (parse_te_tokens a (te_shape_wf a Hshape)) as Hparse.
+  intros r s' Hrun.
+  destruct (add_expr_sem _ _ _ _ _ a s r s' HI Hoff Hlex Hparse Hok Hrun)
+    as (x&->&HI'&He&Hoff'&Hx&HD).
+  split; [|done]. f_equal.
+  apply (canonical_names s' HI'); [done|by apply (valid_extends s s')|].
+  intros ρ. rewrite HD, Hsem. symmetry. by apply denv_extends.
+Qed.
